@@ -227,6 +227,15 @@ theorem graph_terminates_partial (p : Params) (hwf : WF p) (s : State) (h : Reac
   Graph.closure_progress p hwf s h hr hl hp
 
 open Babylon.Anyflow.Graph in
+/-- not vacuous: the one-vertex graph `cexParams` is well-formed, and `okSchedule` (input preset before
+`run`) is a path of the model on which the processor runs once, the closure finishes with 0, is flushed
+once, and the target holds its `evalSeq` value. -/
+example : WF cexParams ∧
+    (runEvents cexParams State.init okSchedule).map (fun s => (s.fin, s.flushed, s.val 1, s.started 0, s.lateEnv))
+      = some (some 0, 1, evalSeq cexParams 1, 1, false) ∧ evalSeq cexParams 1 = some 9 :=
+  ⟨cex_wf, by decide, by decide⟩
+
+open Babylon.Anyflow.Graph in
 /-- **reset_reinit.**  `reset` is accepted only when the run is completely over (fired, vertex count
 0) and maps any such state to the initial state, from which all theorems above apply again (they are
 invariants of `Reachable`, which includes `reset` steps). -/
